@@ -1308,11 +1308,14 @@ class SQLModel:
         )
         # order/limit columns
         if subsql.terms is not None:
-            subsql.terms = {
+            new_terms = {
                 k: subsql.terms[k]
                 for k in select_columns_node.column_selection
                 if k in subusing
             }
+            if len(new_terms) > 0:
+                # (nothing requested: keep the step's own terms, an aggregation must stay an aggregation)
+                subsql.terms = new_terms
         else:
             # the step selected * so far: name the selected columns
             subsql.terms = {
@@ -1344,11 +1347,14 @@ class SQLModel:
             db_model=self, using=subusing, temp_id_source=temp_id_source
         )
         # /limit columns
-        subsql.terms = {
+        new_terms = {
             k: subsql.terms[k]
             for k in using
             if k not in drop_columns_node.column_deletions
         }
+        if len(new_terms) > 0:
+            # (nothing requested: keep the step's own terms, an aggregation must stay an aggregation)
+            subsql.terms = new_terms
         return subsql
 
     def order_to_near_sql(
